@@ -240,6 +240,28 @@ var mutators = []mutator{
 		addField(f, m, "int32", "dflt", 7001, "default = 3")
 		return true
 	}},
+	{"enum.value-names-collide-after-prefix-stripping", func(g *gWorkspace, r *vlib.RNG) bool {
+		// COLOR_RED and RED have the same canonical (JSON) name; legal only as aliases of one number
+		f := pickFile(g, r, func(f *gFile) bool { return f.Syntax != "proto2" })
+		if f == nil {
+			return false
+		}
+		// with and without allow_alias: aliases of ONE number may share a canonical name, different numbers may not
+		for _, alias := range []bool{true, false} {
+			n := g.name("Hue")
+			up := strings.ToUpper(n)
+			e := &gEnum{Name: n, Alias: alias, Vals: []gEnumVal{{Name: up + "_RED", Num: 0}}}
+			if alias {
+				e.Vals = append(e.Vals, gEnumVal{Name: "RED", Num: 0})
+			}
+			e.Vals = append(e.Vals, gEnumVal{Name: up + "_BLUE", Num: 1}, gEnumVal{Name: vlib.Pick(r, []string{"BLUE", "blue", "Blue"}), Num: 2})
+			f.Enums = append(f.Enums, e)
+			if r.Chance(0.5) {
+				break // the aliased enum alone
+			}
+		}
+		return true
+	}},
 	{"proto3.enum-first-value-nonzero", func(g *gWorkspace, r *vlib.RNG) bool {
 		f := pickFile(g, r, func(f *gFile) bool { return f.Syntax == "proto3" })
 		if f == nil {
